@@ -81,6 +81,20 @@ def run(ctx):
         while owner in prog.fns and prog.fns[owner].closure_of:
             owner = prog.fns[owner].closure_of
         row = next((r for r in ALLOWED if owner == r[0] or owner.startswith(r[0] + "::")), None)
+        if row is None or rn not in row[1]:
+            # a private helper that only the reviewed function calls (the body of its cache-miss arm moved there) is part of
+            # that function for this purpose
+            callers = set()
+            for f3, b3, t3 in prog.all_calls():
+                if (t3.callee or "").split("::<")[0] == owner.split("::<")[0] or t3.callee == owner:
+                    o3 = f3.closure_of or f3.path
+                    while o3 in prog.fns and prog.fns[o3].closure_of:
+                        o3 = prog.fns[o3].closure_of
+                    callers.add(o3)
+            if callers:
+                rows_ = [r for r in ALLOWED if rn in r[1] and all(cl == r[0] or cl.startswith(r[0] + "::") for cl in callers) and owner.rsplit("::", 1)[0] == r[0].rsplit("::", 1)[0]]
+                if len(rows_) == 1:
+                    row = rows_[0]
         ok = row is not None and rn in row[1]
         ctx.ob("R1", "raw-stat:%s@%s" % (prim.short(rn), prim.short(owner)), ok,
                "%s (%s) is called in %s: status records must come from WalkEntry::metadata()/file_type(), which apply the follow mode and depth; a raw call sees a different record for links (reviewed sites: entry.rs, Follow::metadata_at_depth and the listed exceptions)%s" % (
@@ -233,7 +247,17 @@ def run(ctx):
         if ok:
             k = [x.strip() for x in o.kids]
             ok = k[0].k == "field" and k[0].a == "follow" and k[1].k == "call" and k[1].a["callee"] == E + "WalkEntry::path" and k[2].k == "call" and k[2].a["callee"] == E + "WalkEntry::depth"
-        ctx.ob("R2", "entry-record", ok, "WalkEntry::get_metadata = %s; oracle self.follow.metadata_at_depth(self.path(), self.depth())" % o.fmt(), fn=gm, how="provenance slice")
+        gm_dispatch = None
+        if not ok:
+            # the cache-miss dispatch may live here: Explicit(path, depth) => follow.metadata_at_depth(path, depth), WalkDir(ent) => ent.metadata()
+            gm_dispatch = _entry_arms(prog, gm)
+            exp = gm_dispatch.get("Explicit", {})
+            mad_calls = [t_ for t_ in exp.get("terms", []) if (t_.callee or "").split("::<")[0] == M + "Follow::metadata_at_depth"]
+            if len(mad_calls) == 1 and sorted(exp.get("callees", [])) == [M + "Follow::metadata_at_depth"]:
+                a_ = [prim.origin_of_operand(gm, x_).strip() for x_ in mad_calls[0].args]
+                payload = lambda x_, i_: any(y.k == "variant" and str(y.a) == "Explicit" for y in x_.walk()) and any(y.k == "field" and str(y.a) == str(i_) for y in x_.walk())
+                ok = len(a_) == 3 and a_[0].k == "field" and a_[0].a == "follow" and payload(a_[1], 0) and payload(a_[2], 1) and sorted(gm_dispatch.get("WalkDir", {}).get("callees", [])) == ["walkdir::DirEntry::metadata"]
+        ctx.ob("R2", "entry-record", ok, "WalkEntry::get_metadata = %s; oracle self.follow.metadata_at_depth(self.path(), self.depth()) (or, per variant, the explicit entry's own path and depth / the walkdir entry's record)" % o.fmt()[:300], fn=gm, how="provenance slice")
     # WalkEntry::metadata: Explicit -> get_metadata, WalkDir -> DirEntry::metadata
     wm = prog.fns.get(E + "WalkEntry::metadata")
     if wm is None:
@@ -254,6 +278,14 @@ def run(ctx):
                         reg = [bb for bb in cf.reach_from([tgt]) if cf.dominates(tgt, bb)]
                         cs = sorted({(tt.callee or "").split("::<")[0] for bb in reg for tt in [cf.blocks[bb].term] if tt.k == "call" and ((tt.callee or "").startswith(E + "WalkEntry::get_metadata") or raw_name(tt))})
                         got[names.get(lab, lab)] = cs
+        if not got:
+            # no dispatch in metadata itself: the cache is filled by get_metadata alone, which dispatches (entry-record)
+            fills = sorted({(tt.callee or "").split("::<")[0] for cf in prog.closures_of(wm) for _, tt in cf.calls() if (tt.callee or "").startswith(E + "WalkEntry::get_metadata") or raw_name(tt)})
+            gmf = prog.fns.get(E + "WalkEntry::get_metadata")
+            if fills == [E + "WalkEntry::get_metadata"] and gmf is not None:
+                arms_ = _entry_arms(prog, gmf)
+                if sorted(arms_.get("Explicit", {}).get("callees", [])) == [M + "Follow::metadata_at_depth"] and sorted(arms_.get("WalkDir", {}).get("callees", [])) == ["walkdir::DirEntry::metadata"]:
+                    got = {"Explicit": [E + "WalkEntry::get_metadata"], "WalkDir": ["walkdir::DirEntry::metadata"]}
         ctx.ob("R2", "cached-record-source", got == {"Explicit": [E + "WalkEntry::get_metadata"], "WalkDir": ["walkdir::DirEntry::metadata"]},
                "WalkEntry::metadata fills its cache from %s; oracle: explicit entries through get_metadata (follow decision), walkdir entries from walkdir" % got, fn=wm, how="discriminant dispatch table")
     # Follow::metadata reuse table
@@ -615,3 +647,21 @@ def run(ctx):
         if not inits and in_closures:
             inits = [fold_init[cf_.path].a.get("v") if cf_.path in fold_init and fold_init[cf_.path].k == "const" else "?" for cf_, _, _ in in_closures]
         ctx.ob("R4", "symbolic-initial-zero", all(v == 0 for v in inits) and bool(inits), "symbolic accumulation starts at %s" % inits, fn=pmode, how="local writers", nontrivial=False)
+
+
+def _entry_arms(prog, fn):
+    """{variant of entry::Entry: {"callees": status-relevant callees in the arm, "terms": their call terminators}} for the
+    dispatch on `self.inner` in fn (empty when fn has none)"""
+    out = {}
+    adt = prog.adts.get(E + "Entry")
+    names = {v["idx"]: v["name"] for v in adt["variants"]} if adt else {}
+    for b in fn.reachable():
+        t = fn.blocks[b].term
+        if t.k == "switch" and (prim.discr_type_of_switch(fn, b) or "").endswith("entry::Entry"):
+            for lab, tgt in prim.switch_edges(fn, b):
+                if lab == "else":
+                    continue
+                reg = [bb for bb in fn.reach_from([tgt]) if fn.dominates(tgt, bb)]
+                terms = [fn.blocks[bb].term for bb in reg if fn.blocks[bb].term.k == "call" and ((fn.blocks[bb].term.callee or "").split("::<")[0] in (M + "Follow::metadata_at_depth", E + "WalkEntry::get_metadata") or raw_name(fn.blocks[bb].term))]
+                out[names.get(lab, lab)] = {"callees": sorted({(raw_name(tt) or (tt.callee or "").split("::<")[0]) for tt in terms}), "terms": terms}
+    return out
